@@ -20,5 +20,5 @@ for d in sorted(os.listdir(os.path.join(ROOT, "seeded"))):
         x = str(x).replace("|", "/").replace("\n", " ")
         return x[:n] + ("…" if len(x) > n else "")
     print("| %s | sub-agent round %s | %s | %s | `bin/check %s quick` exit %s | %s | %s |" % (
-        d, "1" if v in "ab" else "2", clean(m.get("summary", ""), 170), clean(m.get("needs_to_manifest", ""), 150), pid,
+        d, "1" if v in "ab" else ("2" if v in "cd" else "3"), clean(m.get("summary", ""), 170), clean(m.get("needs_to_manifest", ""), 150), pid,
         c.get("quick_check_exit", "?"), "exit %s after %s cases" % g, clean(c.get("quick_check_message", ""), 110)))
